@@ -238,6 +238,15 @@ func TemplateText(parts []TmplPart) string {
 			sb.WriteString("{{ unixToTime ." + t.A + " }}")
 		case "fail_regex":
 			sb.WriteString(`{{ regexReplaceAll "(" .` + t.A + ` "x" }}`)
+		// Failures raised by the template engine itself, not by a function it called.
+		case "fail_field":
+			sb.WriteString("{{ ." + t.A + ".name }}")
+		case "fail_argtype":
+			sb.WriteString("{{ trunc ." + t.A + " 3 }}")
+		case "fail_argcount":
+			sb.WriteString("{{ lower ." + t.A + " ." + t.A + " }}")
+		case "fail_index":
+			sb.WriteString("{{ index ." + t.A + " 7 }}")
 		}
 	}
 	return sb.String()
